@@ -63,7 +63,7 @@ class Result:
 
 
 CHECK_RE = re.compile(
-    r"^Check \d+: (?P<name>\S+)\n\s+- Status: (?P<status>\w+)\n\s+- Description: \"(?P<desc>.*)\"\n(?:\s+- Location: (?P<loc>.*)\n)?",
+    r"^Check \d+: (?P<name>.*)\n\s+- Status: (?P<status>\w+)\n\s+- Description: \"(?P<desc>.*)\"\n(?:\s+- Location: (?P<loc>.*)\n)?",
     re.M)
 PLAYBACK_RE = re.compile(
     r"Concrete playback unit test for `(?P<h>[^`]+)`:\n```\n(?P<src>.*?)\n```", re.S)
@@ -73,6 +73,7 @@ def parse_log(text, res):
     for m in CHECK_RE.finditer(text):
         res.nchecks += 1
         name, status, desc, loc = m.group("name", "status", "desc", "loc")
+        desc = desc.strip('"')
         if ".cover." in name or name.endswith(".cover"):
             # keep the strongest status for a description used more than once
             prev = res.covers.get(desc)
@@ -87,12 +88,15 @@ def parse_log(text, res):
         src = m.group("src")
         cm = re.search(r"/// Check for `(\w+)`: \"(.*)\"", src)
         nm = re.search(r"fn (kani_concrete_playback_\w+)\(", src)
-        res.playback.append((cm.group(1) if cm else "", cm.group(2) if cm else "",
+        res.playback.append((cm.group(1) if cm else "", cm.group(2).strip('"') if cm else "",
                              nm.group(1) if nm else "", src))
     m = re.search(r"Verification Time: ([0-9.]+)s", text)
     if m:
         res.solver_s = float(m.group(1))
-    if "VERIFICATION:- SUCCESSFUL" in text:
+    if not res.failed:
+        for m in re.finditer(r"^Failed Checks: (.*)\n File: (.*)$", text, re.M):
+            res.failed.append((m.group(1).strip('"'), m.group(2)))
+    if "VERIFICATION:- SUCCESSFUL" in text and not res.failed:
         res.status = "ok"
     elif "VERIFICATION:- FAILED" in text:
         res.status = "fail"
